@@ -147,7 +147,7 @@ def check_config(run, pkg, fname, ndim, tri, style):
     T = kws["particle_type"]
     a = [sp.Symbol(f"a{c}", real=True) for c in range(8)]
     for nm, arr in (("positions", P), ("particle_type", T)):
-        base = root_alloc(arr)
+        base = root_alloc(arr, prefer=lambda x: any(Lid in ev.loops for ev in ae.stores.get(x, [])))
         sts = [ev for ev in ae.stores.get(base, []) if Lid in ev.loops] if base is not None else []
         if not sts:
             run.ob("R-IDX", fq, f"{cfg}:{nm}:row", None, f"{nm} rows are placed by atom id", "per-atom store not found", loc=loc)
@@ -257,12 +257,15 @@ def _other_reads(rr) -> bool:
     return any(L.iter == ("sym", "f") for L in rr.it.loops.values())
 
 
-def root_alloc(t: Term) -> Optional[Term]:
-    """The np.zeros allocation a positions / type expression is built on."""
-    for x in walk(t):
-        if x[0] == "call" and x[1] == "numpy.zeros":
-            return x
-    return None
+def root_alloc(t: Term, prefer=None) -> Optional[Term]:
+    """The np.zeros allocation a positions / type expression is built on; with several allocations in the term (bounds compared
+    with coordinates) the one accepted by `prefer` (e.g. filled inside the atom loop) wins."""
+    cands = [x for x in walk(t) if x[0] == "call" and x[1] == "numpy.zeros"]
+    if prefer is not None:
+        for x in cands:
+            if prefer(x):
+                return x
+    return cands[0] if cands else None
 
 
 def match_wrap(ent, tr, p, lo, hi, L):
